@@ -3,6 +3,7 @@ package interp
 import (
 	"fmt"
 	"go/types"
+	"maps"
 	"strconv"
 	"strings"
 
@@ -276,17 +277,17 @@ func (act *activation) call(a *alt, ins ssa.Instruction, c *ssa.CallCommon, defe
 	}
 	for _, r := range res.rets {
 		n := &alt{atoms: r.atoms, impure: a.impure || r.impure, defers: a.defers}
-		n.cells = make(map[int32]cellVal, len(r.cells))
-		for k, v := range r.cells {
-			n.cells[k] = v
+		n.cells = maps.Clone(r.cells)
+		if n.cells == nil {
+			n.cells = map[int32]cellVal{}
 		}
-		n.heap = make(map[term.ID]term.ID, len(r.heap))
-		for k, v := range r.heap {
-			n.heap[k] = v
+		n.heap = maps.Clone(r.heap)
+		if n.heap == nil {
+			n.heap = map[term.ID]term.ID{}
 		}
-		n.frame = make(map[ssa.Value]term.ID, len(a.frame)+4)
-		for k, v := range a.frame {
-			n.frame[k] = v
+		n.frame = maps.Clone(a.frame)
+		if n.frame == nil {
+			n.frame = map[ssa.Value]term.ID{}
 		}
 		if r.impure {
 			n.atoms = n.atoms.Add(ct)
